@@ -6,6 +6,7 @@ from ref import doc9871 as D
 from ref import frames
 from vlib import variants
 from vlib import volume
+from vlib import gen
 from vlib.core import Leg, call
 
 PROPERTY = "C11"
@@ -64,9 +65,9 @@ def enum_fields(ctx):
                         mbs = [rng.getrandbits(56) for _ in range(k)] + [fixed[(raw + j) % 4] for j in range(2)] + [corner_mix(row[0], rng)]
                         # one context per field that is the same for every raw value: consecutive frames then differ in the field only
                         rrow = ctx.rng("row", ri)
-                        same = [rrow.getrandbits(56), rrow.getrandbits(27), rrow.getrandbits(24), 20, "U"]
+                        same = [rrow.getrandbits(56), rrow.getrandbits(27), gen.addr24(rrow), 20, "U"]
                         yield {"row": ri, "raw": raw, "status": status, "sign": sign,
-                               "ctx": [[m0, rng.getrandbits(27), rng.getrandbits(24), rng.choice([20, 21]), rng.choice("ULM")] for m0 in mbs] + [same]}
+                               "ctx": [[m0, rng.getrandbits(27), gen.addr24(rng), rng.choice([20, 21]), rng.choice("ULM")] for m0 in mbs] + [same]}
 
 
 def same(a, b):
@@ -128,7 +129,7 @@ def enum_cap17(ctx):
         if ctx.mine(idx):
             rng = ctx.rng("cap", j)
             m = masks[j] if j < len(masks) else rng.getrandbits(24)
-            yield {"mask": m, "ctx_low": rng.getrandbits(32), "ctx_head": rng.getrandbits(27), "ctx_addr": rng.getrandbits(24), "df": rng.choice([20, 21]),
+            yield {"mask": m, "ctx_low": rng.getrandbits(32), "ctx_head": rng.getrandbits(27), "ctx_addr": gen.addr24(rng), "df": rng.choice([20, 21]),
                    "hc": rng.choice("ULM")}
 
 
@@ -193,7 +194,7 @@ def first_jobs(rng):
             mb = D.place(mb, sb, sb, status)
         if sg is not None:
             mb = D.place(mb, sg, sg, sign)
-        msg = frames.tohex(frames.commb(rng.choice([20, 21]), rng.getrandbits(24), mb, rng.getrandbits(27)), 112, rng.choice("UL"))
+        msg = frames.tohex(frames.commb(rng.choice([20, 21]), gen.addr24(rng), mb, rng.getrandbits(27)), 112, rng.choice("UL"))
         exp = D.expected(row, raw, status, sign)
 
         def judge(got, exp=exp, ti=ti):
